@@ -113,3 +113,10 @@ Theorem C10_nest_unmanaged_subsequence :
   subseq (NestProofs.unms_r (Nest.assign ct f F o n)) (NestProofs.unms o).
 Proof. exact NestProofs.nest_unmanaged_subsequence. Qed.
 Print Assumptions C10_nest_unmanaged_subsequence.
+
+(* never-compared snapshots (Model/Undecided.v): every user-controlled part is kept, in its place, whatever is approved and at any depth *)
+From V Require Model.Undecided Proofs.UndecidedProofs.
+Theorem C10_undecided_unms :
+  forall (upd : bool) (t : Nest.ntree), NestProofs.unms_r (Undecided.undecided upd t) = NestProofs.unms t.
+Proof. exact UndecidedProofs.undecided_unms. Qed.
+Print Assumptions C10_undecided_unms.
